@@ -40,10 +40,13 @@ func runFamily(fam string, w *bufio.Writer, r *rng, id, size int, opt string) bo
 	case "call":
 		switch opt {
 		case "", "general":
-			sc := genScenario(r, cfgGeneral)
+			sc, extra := genScenario(r, cfgGeneral), ""
+			if r.chance(1, 10) {
+				sc, extra = genSubChain(r, cfgGeneral), "shape=subchain"
+			}
 			sc.multiTyped(r)
 			sc.multiConv(r)
-			emitCall(w, sc, id, 3, "call", "")
+			emitCall(w, sc, id, 3, "call", extra)
 		case "fail":
 			genCall(w, r, id, cfgFail, 2, "call")
 		case "single":
